@@ -128,7 +128,8 @@ PROPS = {
         kani=[K_CODEC],
         undecided=["rotation: Oplog::get_log_file_append_mode / remove_old_db_files (rename, directory listing, creation times) - 'rotation keeps the newest records and never drops a "
                    "record within the configured size' is NOT decided by contract (Oplog::try_write_op_log IS verified to leave the accepted record as the last record of the live "
-                   "stream also when the write rolled the file over; the bounded family logroll writes through two rotations on the real disk code)",
+                   "stream also when the write rolled the file over; the bounded family logroll writes through two rotations on the real disk code, and - through the cfg(nundb_verif) hook - runs the declutter step after 9 / 12 / 15 "
+                   "roll-overs: at most nine rotated files remain and the newest 150 records are all still answered)",
                    "that the directory listing really is sorted by creation time and that the files are in time order (get_op_log_entries_by_creation_date is a trusted external; "
                    "files_in_order is the hypothesis of lemma_most_recent_wins)",
                    "termination of the search loop is not proved (exec_allows_no_decreases_clause)",
